@@ -222,7 +222,9 @@ public:
 
     //! Allocate space for n objects.
     __TBB_nodiscard T* allocate(std::size_t n) {
-        T* p = static_cast<T*>(scalable_malloc(n * sizeof(value_type)));
+        // n * sizeof(value_type) must not wrap around
+        T* p = n > static_cast<std::size_t>(-1) / sizeof(value_type) ? nullptr :
+            static_cast<T*>(scalable_malloc(n * sizeof(value_type)));
         if (!p) {
             throw_exception(std::bad_alloc());
         }
